@@ -7,12 +7,16 @@ Legs (DESIGN 3.3):
       every truth-test context and floating constants, `chibicc -S` of a one-operation function must print exactly the
       instruction lines `drv_c02 seq` renders from Model/FpCodegen (which reads the generated table).
   (c) FpuSpec contracts <-> CPU: the instructions the contracts describe are executed on the host (through gcc-compiled
-      C that uses them: conversions, comparisons) and `drv_c02 contract` decides the contract on each observed
-      (input, output) pair.
+      C that uses them: conversions, comparisons, the doubling / subtract-2^63 / add-2^64 steps of the unsigned long cells,
+      the fld/fst round trip under six control words) and `drv_c02 contract` decides the contract on each observed
+      (input, output) pair; data the contracts name through `ofInt*` are compared bit for bit with the IEEE/x87 encoder.
+  (c') model <-> code for constants: `drv_c02 lit` (Model/FpLiteral over the suffix ladder regenerated from tokenize.c) says
+      which type a spelling gets and which libc function's result is kept, or `invalid`; chibicc must give that type
+      (sizeof), the bytes of the spelling rounded ONCE to that function's format, or the diagnostic.
   (d) end to end, chibicc <-> gcc <-> exact rational arithmetic (checklib/c02_fp.py): generated programs over all 12x12
       conversions, all operators x 3 floating types, all truth-test contexts, mixed-type operands and floating constants,
-      on the boundary classes of the property text; raw object bytes must agree.  chibicc != gcc is a VIOLATION (tagged
-      with a known id inside the regions of known_findings.json); gcc != python spec is a broken tie (the spec is wrong).
+      on the boundary classes of the property text; raw object bytes must agree.  chibicc != gcc is a VIOLATION (there is
+      no known region any more: the three former findings were repaired in /repo); gcc != python spec is a broken tie.
 """
 import os, json, hashlib
 from fractions import Fraction
@@ -22,16 +26,26 @@ from .c02_fp import *
 from . import c02_oracle as O
 
 PROPERTY = 'C02'
-GEN_MODULES = ['commontype', 'casttable']
+GEN_MODULES = ['commontype', 'casttable', 'fpliteral']
 LEAN_TARGETS = ['ChibiVerif.Props.C02', 'ChibiVerif.Findings.C02']
 PROPS_FILES = ['ChibiVerif/Props/C02.lean']
 NEEDS_HOOKS = False
 TRUSTED_BASE = [
     'Lean 4.33.0 kernel; axioms admitted: propext, Classical.choice, Quot.sound (audited per theorem on every run)',
     'Spec/FpuSpec.lean: the ASSUMED behaviour of the SSE/x87 instructions (structure FpuSpec: abstract operations + Intel-SDM '
-    'contracts as Prop fields; no IEEE-754 formalisation). Every theorem is relative to it. Satisfiable (Lemmas/FpToy.lean); the host '
-    'CPU is validated against each contract on every run (instruction executed through gcc inline asm on the boundary classes, '
-    '`drv_c02 contract` decides the contract on each observed pair with val* read as IEEE/x87 decoding)',
+    'contracts as Prop fields; no IEEE-754 formalisation of the arithmetic). Every theorem of Props/C02.lean is relative to it. '
+    'Besides conversion/compare/truncate contracts it assumes, for the unsigned long cells at >= 2^63: comiss/comisd flag results, '
+    'the constants 0x5f000000 / 0x43e0000000000000 / flds(0x5f000000) denote 2^63, x - 2^63 is exact for 2^63 <= x < 2^64 '
+    '(subss, subsd, fsub under PC=11b), fild(v-2^64) + 2^64 = datum of v (fadd under PC=11b), x + x is exact (addss, addsd), the '
+    'datum of an integer is a function of its sign and rounded value, fst(fld x) = x for non-NaN x. Satisfiable (Lemmas/FpToy.lean); '
+    'the host CPU is validated against each contract on every run (instruction executed through gcc inline asm on the boundary '
+    'classes, `drv_c02 contract` decides the contract on each observed pair with val* read as IEEE/x87 decoding and ofInt* as the '
+    'IEEE/x87 encoding, bit for bit)',
+    'x87 control word: C02_select asks for precision control = double extended (PC=11b, psABI: 0x37f) in the two cells that do x87 '
+    'arithmetic (unsigned long <-> long double); with another PC those two conversions are wrong on gcc as well',
+    'libc: strtof/strtod/strtold are correctly rounding (round to nearest, ties to even, to their own format) and never return a '
+    'NaN for a pp-number (contract LibcRounds of Model/FpLiteral.lean, hypothesis of C02_const_rounded); validated on every run: '
+    'the bytes chibicc emits for a constant = gcc = exact rational rounding (python) of the spelling',
     'Spec/FpC11Spec.lean (my reading of C11 6.3.1.2/6.3.1.4/6.3.1.5/6.3.1.8, 6.5.8/6.5.9 + Annex F for comparisons and truth) and '
     'checklib/c02_fp.py (exact rational round-to-nearest-even for binary32/binary64/x87-80): validated against gcc 12 on every generated case',
     'Model/FpMachine.lean: mnemonic -> operation and operand order of ~50 SSE/x87 instruction forms, x87 stack as a list, flags of '
@@ -39,10 +53,13 @@ TRUSTED_BASE = [
     'Model/FpCodegen.lean: hand model of the floating arms of cmp_zero/cast/load/gen_expr (ND_NUM, ND_NEG, binary operators, '
     'truth-test contexts); tied by text equality with `chibicc -S` on every conversion cell (12x12), every operator x type pair with a '
     'floating common type, every truth-test context and a battery of constants',
-    'translators tools/extract/casttable.py (cast_table cells as structured instructions, getTypeId) and commontype.py (get_common_type)',
-    'not modelled in Lean (covered by the gcc oracle only, which is testing): convert_pp_number/strtold and the suffix ladder, '
-    'eval_double (static initialisers), compound assignment / ++ -- rewritings of parse.c, default argument promotions, the actual '
-    'rounding performed by the SSE/x87 units',
+    'translators tools/extract/casttable.py (cast_table cells as structured instructions, getTypeId), commontype.py '
+    '(get_common_type) and fpliteral.py (suffix ladder of convert_pp_number: bytes, type, libc function kept)',
+    'Model/FpLiteral.lean: hand model of the floating branch of convert_pp_number over that ladder (end++ / length test); tied by '
+    '`drv_c02 lit` against chibicc on generated spellings (type, value, diagnostic)',
+    'not modelled in Lean (covered by the gcc oracle only, which is testing): the scanning done by strtold (where the number part '
+    'ends), eval_double (static initialisers), compound assignment / ++ -- rewritings of parse.c, default argument promotions, '
+    'the actual rounding performed by the SSE/x87 units',
 ]
 ASSUMPTIONS = ['x86-64 SysV, FLT_EVAL_METHOD 0, round-to-nearest-even, x87 control word 0x37f on entry (neither chibicc nor the '
                'generated programs change the rounding mode except inside FROM_F80, which restores it: proved)',
@@ -155,16 +172,14 @@ def run_conversions(ctx, corr):
             return
         if not small_int_value(f, v):
             corr.nontrivial.add(f'conv {f} {t} {v:x}')
+        if (f == 'u64' and t in FMT and v >= 1 << 63) or (t == 'u64' and f in FMT and sp[0] == 'int' and sp[1] >= 1 << 63):
+            corr.count('u64 at or above 2^63')
         if c is None or c[1] != g[1]:
-            known = O.conv_known(f, t, v)
-            corr.count('mismatch:' + (known or f'conv {f}>{t}'))
-            if known or nv < MAXV:
-                if not known:
-                    nv += 1
-                elif known in corr.known_hits:
-                    continue
+            corr.count(f'mismatch:conv {f}>{t}')
+            if nv < MAXV:
+                nv += 1
                 violation(corr, f'conversion ({O.CNAME[t]})({O.CNAME[f]}) of {describe(f, v)} yields different bytes',
-                          O.conv_minimal(f, t, v), g[1], c[1] if c else 'no output', known, source_bits=f'{v:#x}')
+                          O.conv_minimal(f, t, v), g[1], c[1] if c else 'no output', source_bits=f'{v:#x}')
     corr.sample({'conversion': {'from': 'f64', 'to': 'i32', 'case': next((k for k in cases if k.startswith('f64>i32')), None)}})
 
 
@@ -356,11 +371,11 @@ def run_mixed(ctx, corr):
     rng = ctx.rng
     P = lambda k: 1 << k
     ivals = {'bool': [1, 0], 'i8': [-1, 127], 'i16': [-32768, 255], 'i32': [P(24) + 1, -P(31)], 'i64': [P(53) + 1, -P(63), P(62) + P(38) + 1],
-             'u8': [255, 2], 'u16': [65535, 3], 'u32': [P(32) - 1, P(24) + 3], 'u64': [P(53) + 3, P(63) - 1, P(63) - P(39) - 1, P(64) - 1]}
+             'u8': [255, 2], 'u16': [65535, 3], 'u32': [P(32) - 1, P(24) + 3], 'u64': [P(53) + 3, P(63) - 1, P(63) - P(39) - 1, P(64) - 1, P(63) + P(39) + 1, P(63) + P(10) + 1, P(64) - P(39) - 1]}
     values = dict(ivals)
     for t in O.FTYS:
         vs = [round_bits(t, 0, Fraction(3, 2)), pack(t, 1, 0, 0), qnan_bits(t, 0), round_bits(t, 0, pow2(63)), round_bits(t, 1, Fraction(1, 3)),
-              round_bits(t, 0, 1 + pow2(-23)), round_bits(t, 0, pow2(24) + 1)]
+              round_bits(t, 0, 1 + pow2(-23)), round_bits(t, 0, pow2(24) + 1), round_bits(t, 0, pow2(63) * 3 / 2), round_bits(t, 0, pow2(64) - pow2(40))]
         values[t] = list(dict.fromkeys(vs))
         if ctx.thorough:
             values[t] += O.fp_values(t, rng, 6)[-6:]
@@ -392,18 +407,12 @@ def run_mixed(ctx, corr):
             corr.count('two_nan_payload_not_compared')
             same = is_nan(ct, O.hex_to_int(c[1])) and is_nan(ct, O.hex_to_int(g[1]))
         if not same:
-            known = None
-            if ct == 'f32' and ((t1 == 'u64' and a >= P(63)) or (t2 == 'u64' and b >= P(63))):
-                known = O.KNOWN_U64F32
-            corr.count('mismatch:' + (known or f'mixed {t1}.{t2}.{name}'))
-            if known and known in corr.known_hits:
-                continue
-            if known or nv < MAXV:
-                if not known:
-                    nv += 1
+            corr.count(f'mismatch:mixed {t1}.{t2}.{name}')
+            if nv < MAXV:
+                nv += 1
                 violation(corr, f'`{dict(O.MIXOPS + O.MIXRELS)[name]}` with a: {O.CNAME[t1]} = {describe(t1, a)}, b: {O.CNAME[t2]} = {describe(t2, b)} '
                           f'(common type {O.CNAME[ct]}): different sizeof or result bytes', O.mixed_minimal(t1, t2, name, a, b, ct),
-                          f'{g[0]} {g[1]}', f'{c[0]} {c[1]}' if c else 'no output', known)
+                          f'{g[0]} {g[1]}', f'{c[0]} {c[1]}' if c else 'no output')
     corr.sample({'mixed operands': {'pairs': len(pairs), 'operators': [n for n, _ in O.MIXOPS + O.MIXRELS]}})
 
 
@@ -456,18 +465,112 @@ def run_constants(ctx, corr):
         x = parse_literal(lit)
         if not (x.denominator == 1 and x < 1 << 15):
             corr.nontrivial.add(f'const {tag} {lit}{suf}')
+        if good != via:
+            corr.count('const: rounding twice (through long double) would differ')
         if c is None or c != g:
-            known = O.KNOWN_LIT if good != via and (c is None or c[0] == g[0]) else None
-            corr.count('mismatch:' + (known or f'const {tag} {fmt}'))
-            if known and known in corr.known_hits:
-                continue
-            if known or nv < MAXV:
-                if not known:
-                    nv += 1
+            corr.count(f'mismatch:const {tag} {fmt}')
+            if nv < MAXV:
+                nv += 1
                 violation(corr, f'floating constant {lit}{suf} ({ {"L": "automatic object", "G": "static initializer", "N": "negated"}[tag] }): '
-                          'different type size or bytes', O.const_minimal(lit, suf, fmt, tag), f'{g[0]} {g[1]}', f'{c[0]} {c[1]}' if c else 'no output', known)
+                          'different type size or bytes' + (' (the value rounded twice, through long double?)' if c and O.int_to_hex(via, O.nbytes(fmt)) == c[1] and tag != 'N' else ''),
+                          O.const_minimal(lit, suf, fmt, tag), f'{g[0]} {g[1]}', f'{c[0]} {c[1]}' if c else 'no output')
     corr.sample({'constants': {'literals': len(lits), 'first': [l + s for l, s, _ in lits[:5]]}})
 
+
+
+# -------------------------------------------------------------------------------------------------- constants: model <-> code
+
+LIT_TAILS_OK = ['', 'f', 'F', 'l', 'L']
+LIT_TAILS_BAD = ['ff', 'fl', 'lf', 'LL', 'Lf', 'fF', 'x', 'd', 'D', 'u', 'lu', 'fx', 'q', 'e', 'E', 'el', 'i', 'lL', 'FL', 'h']
+
+
+def run_literal_model(ctx, corr):
+    """Model/FpLiteral (over the regenerated suffix ladder) against the real tokenizer: for number part + tail, the model says
+    `<type> <libc function kept>` or `invalid`; chibicc must give that type (sizeof), the bytes of the spelling rounded once to
+    that function's format and then converted to the type, or the diagnostic `invalid numeric constant`."""
+    rng = ctx.rng
+    nums = [l for l in O.gen_literals(rng, 400 if ctx.thorough else 60) if not l.lower().startswith('0x') or 'p' in l.lower()]
+    nums = [l for l in nums if ('.' in l or 'e' in l.lower() or 'p' in l.lower())]
+    rng.shuffle(nums)
+    good, bad = [], []
+    for k, num in enumerate(nums):
+        for t in LIT_TAILS_OK:
+            if t in ('F', 'l') and k % 5:
+                continue
+            good.append((num, t))
+        if k < (200 if ctx.thorough else 25):
+            for t in rng.sample(LIT_TAILS_BAD, 3 if ctx.thorough else 2):
+                if num.lower().startswith('0x') and t[0] in 'dDe' 'E':
+                    continue      # would be read as more exponent / hex digits by nobody, but keep the number part unambiguous
+                bad.append((num, t))
+    spec = ''.join(f'{ord(t[0]) if t else 41} {len(t)}\n' for _, t in good + bad)
+    model = ctx.driver('lit', spec).splitlines()
+    if len(model) != len(good) + len(bad):
+        corr.disagreements.append({'kind': 'literal model', 'what': f'driver printed {len(model)} lines for {len(good) + len(bad)} spellings'})
+        return
+    TY = {'float': 'f32', 'double': 'f64', 'ldouble': 'f80'}
+    PF = {'strtof': 'f32', 'strtod': 'f64', 'strtold': 'f80'}
+    # valid spellings: one program
+    out = [O.PRELUDE, 'int main(void) {']
+    for k, (num, t) in enumerate(good):
+        m = model[k].split()
+        if len(m) != 2 or m[0] not in TY:
+            corr.disagreements.append({'kind': 'literal model', 'what': f'model rejects the standard constant {num}{t}: `{model[k]}`'})
+            return
+        fmt = TY[m[0]]
+        out.append(f'  {{ T_{fmt} v = {num}{t}; printf("%d ", (int)sizeof({num}{t})); dump("M", {k}, 0, &v, {O.nbytes(fmt)}); }}')
+    out.append('  return 0;\n}')
+    src = os.path.join(ctx.scratch, 'litmodel.c')
+    exe = os.path.join(ctx.scratch, 'litmodel.exe')
+    with open(src, 'w') as f:
+        f.write('\n'.join(out) + '\n')
+    rc, o, e = sh([ctx.cc, '-o', exe, src], timeout=600, cwd=ctx.scratch)
+    if rc != 0:
+        corr.violations.append({'what': 'chibicc rejects a program of standard floating constants', 'input': '\n'.join(out)[:3000],
+                                'expected': 'compiles', 'got': (e or o)[-300:]})
+        return
+    rc, o, e = sh([exe], timeout=600)
+    got = O.parse_output(o)
+    nd = 0
+    for k, (num, t) in enumerate(good):
+        corr.evaluations += 1
+        corr.count('litmodel:valid')
+        corr.nontrivial.add(f'litmodel {num}{t}')
+        ty, pf = model[k].split()
+        fmt, via = TY[ty], PF[pf]
+        x = parse_literal(num)
+        r = round_mag(via, x)
+        bits = inf_bits(fmt, 0) if r[0] == 'inf' else round_bits(fmt, 0, r[1])
+        want = (str(FMT[fmt]['size']), O.int_to_hex(bits, O.nbytes(fmt)))
+        c = got.get(f'M {k} 0')
+        if c != want:
+            nd += 1
+            if nd <= 3:
+                corr.disagreements.append({'kind': 'literal model', 'spelling': num + t, 'model': f'{model[k]} -> size {want[0]} bytes {want[1]}',
+                                           'impl': f'size {c[0]} bytes {c[1]}' if c else 'no output'})
+    # invalid spellings: each must be diagnosed
+    d = os.path.join(ctx.scratch, 'litbad')
+    os.makedirs(d, exist_ok=True)
+
+    def one(k):
+        num, t = bad[k]
+        fn = os.path.join(d, f'b{k}.c')
+        with open(fn, 'w') as f:
+            f.write(f'int main(void) {{ return sizeof({num}{t}); }}\n')
+        return sh([ctx.cc, '-S', '-o', '/dev/null', fn], timeout=60)
+    with ThreadPoolExecutor(NPROC) as ex:
+        res = list(ex.map(one, range(len(bad))))
+    for k, ((num, t), (rc, o, e)) in enumerate(zip(bad, res)):
+        corr.evaluations += 1
+        corr.count('litmodel:invalid')
+        corr.nontrivial.add(f'litmodel {num}{t}')
+        mod = model[len(good) + k]
+        impl = 'invalid' if (rc != 0 and 'invalid numeric constant' in (e + o)) else ('accepted' if rc == 0 else 'other failure: ' + (e or o)[-120:])
+        if mod != impl:
+            nd += 1
+            if nd <= 3:
+                corr.disagreements.append({'kind': 'literal model', 'spelling': num + t, 'model': mod, 'impl': impl})
+    corr.sample({'literal model': {'valid': len(good), 'invalid': len(bad), 'example': f'{good[0][0]}{good[0][1]} -> {model[0]}'}})
 
 # -------------------------------------------------------------------------------------------------- text tie (model <-> chibicc -S)
 
@@ -493,7 +596,8 @@ def asm_body(text):
 TIE_OPS = ['add', 'sub', 'mul', 'div', 'eq', 'ne', 'lt', 'le', 'gt', 'ge']
 TIE_LITS = ['1.5', '0.1', '3.4028235e38', '1e-45', '16777217.0', '0x1.000001p0', '1.0000000596046447753906251', '1e39',
             '1.000000000000000111022302462515654042363166809082031251', '0x1.00000000000008000001p0', '1e400', '4.9406564584124654e-324',
-            '0.0', '2.5', '1e22', '0x1.8p-16400', '18446744073709551615.0', '0x1.ffffffffffffffffp16383']
+            '0.0', '2.5', '1e22', '0x1.8p-16400', '18446744073709551615.0', '0x1.ffffffffffffffffp16383', '18446744073709553665.0',
+            '16777217.00000000000000000001', '9007199254740993.000000000000000000001', '1.00000017881393432617187500000001']
 
 
 def tie_cases(ctx):
@@ -526,10 +630,10 @@ def tie_cases(ctx):
             cases.append((f'or {t2} {t} 1', f'{C[t2]} a;\n{C[t]} b;\nint f(void) {{ return a || b; }}\n'))
     for lit in TIE_LITS:
         x = parse_literal(lit)
-        r80 = round_mag('f80', x)
         for suf, fmt in (('', 'f64'), ('f', 'f32'), ('L', 'f80')):
-            # the path of the code: strtold, then the narrowing of ND_NUM's union initialiser
-            bits = inf_bits(fmt, 0) if r80[0] == 'inf' else round_bits(fmt, 0, r80[1])
+            # the path of the code: strtod / strtof / strtold of the spelling (rounded once, to the constant's own type), widened
+            # exactly to the long double `fval`, narrowed back by ND_NUM's union initialiser
+            bits = round_bits(fmt, 0, x)
             cases.append((f'num {fmt} {bits}', f'{C[fmt]} f(void) {{ return {lit}{suf}; }}\n'))
     return cases
 
@@ -609,6 +713,11 @@ def run_contracts(ctx, corr):
         if not ctx.thorough:
             pairs = pairs[:1] + rng.sample(pairs, min(len(pairs) - 1, 300))
         vals[key] = pairs
+    for f in O.FTYS:
+        vals['r' + f[1:]] = O.range63_values(f, rng, nr * 2)
+    # unsigned long patterns with the top bit set (fildq + fadds 2^64) and halved-with-sticky values (the doubling contract)
+    top = O.u64_top_values(rng, nr * 2)
+    vals['i64'] = list(dict.fromkeys(vals['i64'] + top + [((v >> 1) | (v & 1)) for v in top]))
     text = O.contract_program(vals)
     src = os.path.join(ctx.scratch, 'contract.c')
     exe = os.path.join(ctx.scratch, 'contract.exe')
@@ -623,6 +732,7 @@ def run_contracts(ctx, corr):
     if rc != 0 or not lines:
         corr.disagreements.append({'kind': 'contract harness', 'what': f'instruction harness failed rc={rc}', 'detail': e[-300:]})
         return
+    lines += ['two63 32 1593835520', 'two63 64 4890909195324358656']
     # the rounding function itself, against an independent implementation
     for _ in range(4000 if ctx.thorough else 400):
         p = rng.choice([24, 53, 64])
@@ -734,10 +844,14 @@ def correspond(ctx, corr):
                  'pairs on the boundary battery of the property text (+ seeded random), undefined floating->integer cases dropped and '
                  'counted.  Operators: + - * / == != < <= > >= on every ordered pair of the boundary operands, for float, double and '
                  'long double.  Truth tests: 18 contexts x every boundary operand.  Mixed-type operands: every type pair with a floating '
-                 'side.  Constants: decimal/hex spellings x suffixes, halfway cases and their neighbours.  non-trivial = some operand is '
+                 'side.  Constants: decimal/hex spellings x suffixes, halfway cases and their neighbours (rounded once: a value that rounding '
+                 'through long double would change is counted).  Unsigned long <-> floating at and above 2^63: sticky-bit / half-way patterns for '
+                 'float and double, the neighbours of 2^63 and 2^64 in each format, fractions, negatives and NaN (undefined cases dropped and '
+                 'counted).  non-trivial = some operand is '
                  'not a non-negative integer below 2^15 (the kind of value the suite samples); distinct = by (operation, types, operand bits).')
     run_text_tie(ctx, corr)
     run_contracts(ctx, corr)
+    run_literal_model(ctx, corr)
     run_conversions(ctx, corr)
     run_operators(ctx, corr)
     run_contexts(ctx, corr)
@@ -782,22 +896,30 @@ def replay(ctx, corr, path):
 MANIFEST = {
     'level_text': 'Lean 4 theorems, for every FPU meeting the Intel-SDM contracts of Spec/FpuSpec.lean (abstract operations; the '
                   'contracts are validated on the host CPU on every run), every machine state and every operand value: C02_rank '
-                  '(get_common_type = C11 6.3.1.8 on all 12x12 arithmetic pairs, regenerated table), C02_select_partial (the cast-table '
-                  'cell / _Bool sequence selected for each of the 63 (from,to) pairs with a floating side implements the C11 conversion: '
-                  'right instruction, width, signedness, slot, re-extension, control word restored), C02_u64f64 (the branchy unsigned long '
-                  '-> double cell = round-to-nearest-even of the unsigned value for all 2^64 inputs), C02_flags / C02_flags_truth / '
-                  'C02_compare_* / C02_truth (setcc/jcc combinations give the IEC 60559 answers incl. NaN and -0.0 on the SSE, x87 and '
-                  'truth-test paths), C02_arith (operand order), C02_neg (only the sign bit flips), C02_const (immediates = datum of the '
-                  'constant converted to the node type).  Tied to the code every run: table translators, text equality of the hand model '
-                  'with chibicc -S (873 one-operation functions), and an end-to-end oracle chibicc vs gcc vs exact rational arithmetic on '
-                  '~60k (quick) generated cases over the boundary classes of the property.',
-    'level_note': 'PARTIAL. Numeric results are relative to FpuSpec (validated on hardware, not proved). Known findings with kernel-checked '
-                  'witnesses: unsigned long -> float at >= 2^63 (signed cvtsi2ssq), floating -> unsigned long at >= 2^63 (signed truncation), '
-                  'double rounding of literals through strtold; C02_select_Statement is therefore false and kept as a def. Not modelled in '
-                  'Lean: literal scanning (strtold, suffix ladder), eval_double, parse.c rewritings of op= / ++ / --, variadic promotions: '
+                  '(get_common_type = C11 6.3.1.8 on all 12x12 arithmetic pairs, regenerated table), C02_select (FULL strength: the '
+                  'cast-table cell / _Bool sequence selected for each of the 63 (from,to) pairs with a floating side implements the C11 '
+                  'conversion for ALL values: right instruction, width, signedness, slot, re-extension, control word restored; unsigned long '
+                  '-> float/double correctly rounded for all 2^64 values by the halve-with-sticky-bit sequences, float/double/long double -> '
+                  'unsigned long exact truncation for every x with 0 <= trunc x < 2^64; the two unsigned long <-> long double cells under the '
+                  'ABI x87 precision), C02_u64f32 / C02_u64f64 / C02_u64f80 / C02_fp_to_u64 (those cells spelled out), C02_flags / '
+                  'C02_flags_truth / C02_compare_* / C02_truth (setcc/jcc combinations give the IEC 60559 answers incl. NaN and -0.0 on the '
+                  'SSE, x87 and truth-test paths), C02_arith (operand order), C02_neg (only the sign bit flips), C02_const (immediates = '
+                  'datum of the constant converted to the node type), C02_const_parser / C02_const_literal / C02_const_rounded (over the '
+                  'suffix ladder regenerated from tokenize.c: each suffix keeps the result of the libc function of its own type, the '
+                  'emitted code materialises exactly that datum, i.e. the spelling rounded once), and without any FPU contract: '
+                  'C02_ieee_int_roundtrip / C02_ieee_int_exact / C02_ieee_trunc_back (on the IEEE/x87 bit layouts alone: the encoding of an integer decodes to the integer rounded to 24/53/64 bits, exactly for |n| <= 2^24/2^53/2^64, and truncation gives the integer back).  '
+                  'Tied to the code every run: table translators, text equality of the hand model with chibicc -S (~880 one-operation '
+                  'functions), the literal model against the tokenizer, and an end-to-end oracle chibicc vs gcc vs exact rational arithmetic '
+                  'on ~60k (quick) generated cases over the boundary classes of the property.',
+    'level_note': 'PARTIAL BY CONSTRUCTION only in this sense: numeric results are relative to FpuSpec (validated on hardware, not proved) '
+                  'and to the libc contract for strtof/strtod/strtold. No _Statement is left open and there is no known finding: the three '
+                  'former findings (unsigned long -> float at >= 2^63, floating -> unsigned long at >= 2^63, literals rounded twice through '
+                  'strtold) were repaired in /repo; Findings/C02.lean keeps kernel-checked witnesses that the OLD formulas were wrong. Not '
+                  'modelled in Lean: where strtold stops scanning, eval_double, parse.c rewritings of op= / ++ / --, variadic promotions: '
                   'these are covered by the gcc oracle only.',
-    'technique': 'Lean 4 proof over abstract FPU contracts: kernel evaluation of the generated instruction strings on a machine model, '
-                 'BitVec/Int arithmetic for the integer side, whole-table decide; translator-regenerated tables; asm-text correspondence; '
-                 'three-way differential oracle (chibicc, gcc, exact rational spec) and CPU validation of the contracts',
+    'technique': 'Lean 4 proof over abstract FPU contracts: kernel evaluation of the generated instruction strings on a machine model '
+                 '(incl. forward branches), BitVec/Int/Nat arithmetic for the integer side and for round-to-odd, whole-table decide; '
+                 'translator-regenerated tables; asm-text correspondence; three-way differential oracle (chibicc, gcc, exact rational '
+                 'spec) and CPU validation of the contracts',
     'design_ref': 'DESIGN.md section 6, C02',
 }
